@@ -295,5 +295,6 @@ def cases(tier, seed):
         for i, poly in enumerate(polys[:2]):
             add(f"polygon3d_line_e{j}_{i}", mk_polygon3d_line(poly, emb), tiers=Q, max_paths=1500)
     add("polygon3d_line_translated", mk_polygon3d_line(polys[0], embeds[1], moved=(1, -2, 3)), tiers=Q, max_paths=1500)
+    add("polygon3d_line_lifted", mk_polygon3d_line(polys[0], embeds[0], moved=(0, 0, 2)), tiers=Q, max_paths=1500)
     add("cube_line", case_cube_line, tiers=Q, max_paths=4000)
     return cs
